@@ -62,6 +62,7 @@ type Oracles struct {
 	timeoutNows         map[string][]int64
 	termStart           map[string]uint64 // server/term -> first index it appended as leader of that term
 	userSnaps           map[uint64]uint64 // state hash of operator-supplied snapshots -> burned index
+	userSnapMs          map[uint64]int64  // ... -> virtual ms at which it was written
 	Quiet               bool              // faults have stopped: progress rules (C12/R3) are armed
 	snapRepeat          map[string]*repeatRec
 	aeRepeat            map[string]*repeatRec
@@ -79,7 +80,7 @@ type Oracles struct {
 func newOracles(w *World) *Oracles {
 	return &Oracles{w: w, entries: map[idxTerm]entryID{}, committed: map[uint64]*centry{}, fsmNext: map[*Instance]uint64{},
 		leaderOf: map[uint64]string{}, senderOf: map[uint64]string{}, Stats: map[string]int{},
-		acks: map[string][]Ack{}, payloadAt: map[uint64]uint64{}, watched: map[uint64]string{}, snapRepeat: map[string]*repeatRec{}, aeRepeat: map[string]*repeatRec{}, userSnaps: map[uint64]uint64{}, termStart: map[string]uint64{}, timeoutNows: map[string][]int64{}, unconfirmedRestores: map[string]int{}}
+		acks: map[string][]Ack{}, payloadAt: map[uint64]uint64{}, watched: map[uint64]string{}, snapRepeat: map[string]*repeatRec{}, aeRepeat: map[string]*repeatRec{}, userSnaps: map[uint64]uint64{}, userSnapMs: map[uint64]int64{}, termStart: map[string]uint64{}, timeoutNows: map[string][]int64{}, unconfirmedRestores: map[string]int{}}
 }
 
 func contentHash(l *raft.Log) uint64 {
@@ -391,6 +392,7 @@ func (o *Oracles) checkSnapshot(in *Instance, op *DiskOp) {
 		var st FSMState
 		if err := jsonUnmarshal(sn.Data, &st); err == nil {
 			o.userSnaps[st.Hash] = m.Index
+			o.userSnapMs[st.Hash] = o.w.Now()
 			o.unconfirmedRestores[in.ID()]++
 			o.UserRestored(m.Index, st)
 			o.stat("user-restore-snapshot")
